@@ -418,6 +418,7 @@ class Session:
             plaintext = self.decryptor.decrypt(record, isserver)
         except Exception as e:
             logging.warning(f"Could not decrypt Record: TLS Application Record")
+            return
         self.application_traffic.append((plaintext, record, isserver))
 
     # consumes and handles a TLS_Record
